@@ -12,6 +12,10 @@ func runC03(c *CaseCtx) {
 		class += "-sparse"
 	}
 	nKeys := 5 + r.Intn(9)
+	big := c.Case%4 == 3
+	if big {
+		nKeys = 30 + r.Intn(40) // several B+ tree levels: offsets that skip whole leaves and inner nodes
+	}
 	u := defaultUniverse(r, nb, nKeys, false)
 	run := NewRunner(c, cfg, u, class)
 	run.SigTag = func(o Op) string {
@@ -55,11 +59,31 @@ func runC03(c *CaseCtx) {
 			}
 		}
 	}
+	merged := false
+	if cfg.Mode != 2 && c.Case%3 == 1 && run.Files() >= 2 {
+		// a Merge in the same process before the sweep (counters and flags of the handle that Merge touches), followed
+		// by puts of keys that were dead at the time of the Merge; no reopen afterwards
+		c.Log("merge (%d files)", run.Files())
+		if merr, p := mergeNoPanic(run); p != "" {
+			c.Violate("panic:Merge:"+p, class, "Merge panicked: "+p)
+			return
+		} else if merr == nil {
+			merged = true
+			c.Stat("merges_succeeded", 1)
+		}
+		for _, b := range u.Buckets {
+			for _, k := range u.KVKeys {
+				if it := run.M.KV[b][string(k)]; !it.live() && r.Intn(2) == 0 {
+					run.Tx(TxSpec{Mode: "update", Ops: []Op{{K: "Put", B: b, Key: k, Val: g.value(b, len(k))}}}, false)
+				}
+			}
+		}
+	}
 	for i := 0; i < 6 && !c.Violated(); i++ { // some more ordinary traffic
 		g.M = run.M
 		run.Tx(g.WriteTx(true), false)
 	}
-	if r.Intn(2) == 0 {
+	if r.Intn(2) == 0 && !merged {
 		if !run.Reopen() {
 			return
 		}
@@ -93,6 +117,9 @@ func runC03(c *CaseCtx) {
 					if lim == 0 {
 						continue
 					}
+					if big && n > 12 && lim > 2 && lim < n-1 && (off+lim)%7 != 0 {
+						continue // large states: every offset with limits -1, 1, 2, n-1, n, n+1 and a seventh of the rest
+					}
 					ops = append(ops, Op{K: "PrefixScan", B: b, Key: []byte(p), I: off, J: lim})
 				}
 			}
@@ -125,7 +152,7 @@ func runC03(c *CaseCtx) {
 
 func init() {
 	register(&Check{
-		ID: "C03", Level: "exploration",
+		ID: "C03", Level: "exploration", LeakClass: "paging-handles",
 		NCases: func(t string) int { return tier(t, 150, 5000) },
 		Run:    runC03,
 		Rule: "case = a generated database state in which 30-60 % of the keys are dead (deleted, or overwritten by a long-expired put; dead runs longer than a B+ tree leaf), in each of the three index modes, optionally reopened; then EXHAUSTIVELY for that state: every prefix of every key plus an absent prefix x offset 0..n+1 x limit in {-1, 1..n+1} for PrefixScan, and 3 regular expressions x limit for PrefixSearchScan (offset 0); " +
